@@ -107,11 +107,11 @@ theorem C15_sequence (cfg : Cfg) (s : HashState) (ts : List Val) :
 
 The full statement is `C15_tweaks_full` below (a `def … : Prop`, not proved): every pass of
 `post_process`, applied to the dump of a well-formed tree, is the dump of the tree-level tweak.
-Two of the six passes are proved here (`unquote`, `suppress_kinds`), each under *local* clauses
-(`wfUnquote`, `wfKinds`: per name / type / scalar, Bool-valued, checked by the harness on every real
-tree). The four others (`suppress_alias_pos`, `suppress_posonlyargs`, `backport_all_constants`,
-`simplify_negative_literals`) and the composition are exercised by the correspondence only
-(`c15.spec` = dump of `tweak`), on every run. -/
+Three of the six passes are proved here (`unquote`, `suppress_kinds`, `suppress_posonlyargs`), each
+under *local* clauses (`wfUnquote`, `wfKinds`, `wfPosonly`: per name / type / scalar, Bool-valued,
+checked by the harness on every real tree). The three others (`suppress_alias_pos`,
+`backport_all_constants`, `simplify_negative_literals`) and the composition are exercised by the
+correspondence only (`c15.spec` = dump of `tweak`), on every run. -/
 
 /-- Full statement (not proved): post-processing the dump = dumping the tweaked tree. -/
 def C15_tweaks_full (WF : Val → Prop) : Prop :=
@@ -135,7 +135,16 @@ theorem C15_tweak_kinds_partial (t0 : Val) (ty : Str) (e : Bool) (r : Str) (ln :
       dumpP (hashFn t0) [] [] (dropKinds false (.node ty e r ln fs)) :=
   suppressKinds_dumpP (hashFn t0) (eq_not_mem_hashFn t0) _ [] [] (by simp) (by simp) hwf (by intro r k; simp)
 
-/-- Non-vacuity: `x = u'a'` (exported shape) satisfies both sets of clauses. -/
+/-- **C15 (tweak: suppress_posonlyargs), partial.** On the dump of a tree satisfying `wfPosonly` (no
+`=` in names and types, no scalar line that itself looks like a `posonlyargs` length line), the pass
+`suppress_posonlyargs` is exactly the dump of the tree in which every list hanging under
+`…/args/posonlyargs` (with a non-empty path before) no longer prints its `_length` — its items, and
+everything else, are unchanged. -/
+theorem C15_tweak_posonly_partial (t0 t : Val) (hwf : wfPosonly [] t = true) :
+    suppressPosonlyargs (dumpP (hashFn t0) [] [] t) = dumpP (hashFn t0) [] [] (quietPosonly [] t) :=
+  suppressPosonlyargs_dumpP (hashFn t0) (eq_not_mem_hashFn t0) t [] [] (by simp) (by simp) hwf
+
+/-- Non-vacuity: `x = u'a'` (exported shape) satisfies the three sets of clauses. -/
 def sampleConst : Val :=
   .node cs!"Module" false [] none
     [(cs!"body", .list false
@@ -143,7 +152,8 @@ def sampleConst : Val :=
         [(cs!"value", .node cs!"Constant" true cs!"Constant(value='a', kind='u')" (some 1)
           [(cs!"value", .scalar cs!"'a'" .str), (cs!"kind", .scalar cs!"'u'" .str)])]])]
 
-example : wfUnquote sampleConst = true ∧ wfKinds sampleConst = true := by decide
+example : wfUnquote sampleConst = true ∧ wfKinds sampleConst = true ∧ wfPosonly [] sampleConst = true := by
+  decide
 example : suppressKinds (dumpP id [] [] sampleConst) =
     [cs!"/_type=Module", cs!"/body/_length=1", cs!"/body/1/_type=Expr", cs!"/body/1/_pos=1:1-",
      cs!"/body/1/value/_type=Constant", cs!"/body/1/value/_hash=Constant(value='a', kind='u')",
